@@ -63,7 +63,11 @@ class Oracles:
             w.label("rejected:multi-cause")
         if not must:
             props = {"C09", "C04"} if rm.kind in ("apply", "start") else {"C09", "C05"}
-            w.fail(props, "spawn/rejected-without-cause", f"{rm.kind} raised {got}: {exc}")
+            if got == "TaskGroupAlreadyExists" and rm.spec.get("gname") is None:
+                # an unnamed request: the name the pool generated for it collides with a live group
+                w.fail(props | {"C10"}, "group/generated-name-collides-with-live-group", f"{rm.kind} raised {got}: {exc}")
+            else:
+                w.fail(props, "spawn/rejected-without-cause", f"{rm.kind} raised {got}: {exc}")
         else:
             ok = got in must
             if not ok:
